@@ -46,9 +46,17 @@ func toNotification(host *Host) Notification {
 }
 
 func (h *Session) sendNotification(notification Notification) {
-	if len(h.C) < cap(h.C) {
-		h.C <- notification
+	// Close closes the channel under the session lock: hold the read lock while sending and never
+	// block while holding it (purge and the packet loop can both be sending).
+	h.mutex.RLock()
+	defer h.mutex.RUnlock()
+	if h.closed {
 		return
+	}
+	select {
+	case h.C <- notification:
+		return
+	default:
 	}
 	Logger.Msg("notification channel is full").Int("len", len(h.C)).Struct(notification).Write()
 }
